@@ -56,6 +56,7 @@ structure SupWiringRow where
   seed : String               -- the `random_state=` argument ("" if none)
   defaultCoef : Nat           -- `n_constraints = coef * num_classes ** pow` when `None` (0, 0 when absent)
   defaultPow : Nat
+  classesOf : String          -- which labels `num_classes` counts: "known" (`y[y >= 0]`), "all" (unlabeled markers too), "" when absent
   former : String             -- how the tuples are formed from `X`
   baseCall : String           -- the base fit that receives them
   baseArgs : List String
@@ -67,23 +68,23 @@ deriving DecidableEq, Repr
 def expectedSupWiring : List SupWiringRow :=
   let pairsRow (cls base : String) : SupWiringRow :=
     { cls := cls, generator := "positive_negative_pairs", labelsArg := "y", prepared := true, args := ["n_constraints"],
-      sameLength := false, seed := "self.random_state", defaultCoef := 20, defaultPow := 2, former := "wrap_pairs",
+      sameLength := false, seed := "self.random_state", defaultCoef := 20, defaultPow := 2, classesOf := "known", former := "wrap_pairs",
       baseCall := base, baseArgs := ["self", "pairs", "y"], baseKwargs := [],
       assigned := ["X", "c", "n_constraints", "num_classes", "pairs", "pos_neg", "y"] }
   [ { pairsRow "ITML_Supervised" "_BaseITML._fit" with baseKwargs := ["bounds=bounds"] },
     pairsRow "MMC_Supervised" "_BaseMMC._fit",
     pairsRow "SDML_Supervised" "_BaseSDML._fit",
     { cls := "LSML_Supervised", generator := "positive_negative_pairs", labelsArg := "y", prepared := true, args := ["n_constraints"],
-      sameLength := true, seed := "self.random_state", defaultCoef := 20, defaultPow := 2, former := "column_stack",
+      sameLength := true, seed := "self.random_state", defaultCoef := 20, defaultPow := 2, classesOf := "known", former := "column_stack",
       baseCall := "_BaseLSML._fit", baseArgs := ["self", "X[np.column_stack(pos_neg)]"], baseKwargs := ["weights=self.weights"],
       assigned := ["X", "c", "n_constraints", "num_classes", "pos_neg", "y"] },
     { cls := "RCA_Supervised", generator := "chunks", labelsArg := "y", prepared := true,
       args := ["chunk_size=self.chunk_size", "n_chunks=self.n_chunks"], sameLength := false, seed := "self.random_state",
-      defaultCoef := 0, defaultPow := 0, former := "chunks", baseCall := "RCA.fit", baseArgs := ["self", "X", "chunks"],
+      defaultCoef := 0, defaultPow := 0, classesOf := "", former := "chunks", baseCall := "RCA.fit", baseArgs := ["self", "X", "chunks"],
       baseKwargs := [], assigned := ["X", "chunks", "y"] },
     { cls := "SCML_Supervised", generator := "generate_knntriplets", labelsArg := "y", prepared := true,
       args := ["X", "self.k_genuine", "self.k_impostor"], sameLength := false, seed := "",
-      defaultCoef := 0, defaultPow := 0, former := "index", baseCall := "self._fit", baseArgs := ["triplets", "basis", "n_basis"],
+      defaultCoef := 0, defaultPow := 0, classesOf := "", former := "index", baseCall := "self._fit", baseArgs := ["triplets", "basis", "n_basis"],
       baseKwargs := [], assigned := ["X", "basis", "constraints", "n_basis", "triplets", "y"] } ]
 
 def SupKind.className : SupKind → String
